@@ -1,0 +1,43 @@
+//go:build verif
+
+// Second part of the white-box access for the /verif C19 check: a real
+// in-memory rate limiter under inMemory, the entry slice capacity thresholds,
+// and the capacity state of the entry slice. Compiled only with -tags verif.
+
+package raft
+
+import (
+	"github.com/lni/dragonboat/v4/internal/server"
+)
+
+// VerifC19NewRL is VerifC19New with a real rate limiter of the given max size
+// (0 = disabled, as VerifC19New).
+func VerifC19NewRL(logdb ILogDB, committed uint64, maxInMemLogSize uint64) *VerifC19 {
+	el := newEntryLog(logdb, server.NewInMemRateLimiter(maxInMemLogSize))
+	if committed > el.committed {
+		el.committed = committed
+	}
+	r := &raft{log: el}
+	v := &VerifC19{p: Peer{raft: r}, el: el}
+	v.p.prevState = r.raftState()
+	return v
+}
+
+// RLSize returns what the rate limiter under inMemory has recorded and whether
+// inMemory considers itself rate limited.
+func (v *VerifC19) RLSize() (uint64, bool) {
+	return v.el.inmem.rl.Get(), v.el.inmem.rateLimited()
+}
+
+// VerifC19SetSliceSizes replaces entrySliceSize / minEntrySliceSize (the
+// thresholds of inMemory's resize logic) and returns the old values.
+func VerifC19SetSliceSizes(size uint64, minFree uint64) (uint64, uint64) {
+	a, b := entrySliceSize, minEntrySliceSize
+	entrySliceSize, minEntrySliceSize = size, minFree
+	return a, b
+}
+
+// EntriesCap returns len, cap and the shrunk flag of inMemory.entries.
+func (v *VerifC19) EntriesCap() (int, int, bool) {
+	return len(v.el.inmem.entries), cap(v.el.inmem.entries), v.el.inmem.shrunk
+}
